@@ -99,6 +99,35 @@ func init() {
 		w.Close()
 		return hx(buf.String())
 	}
+	// csseq (keyring input)* -> ONE EntityList variable whose contents are replaced in place before each read (the
+	// reader is always given the same pointer); each read answers for the keyring as it is at that moment
+	ops["csseq"] = func(a []string) string {
+		var shared openpgp.EntityList
+		out := []string{}
+		for i := 0; i+1 < len(a); i += 2 {
+			now := keyringOf(a[i])
+			shared = shared[:0]
+			if now != nil {
+				shared = append(shared, (*now)...)
+			}
+			r, err := control.NewParagraphReader(bytes.NewReader([]byte(a[i+1])), &shared)
+			if err != nil {
+				out = append(out, "err")
+				continue
+			}
+			ps, err := r.All()
+			if err != nil {
+				out = append(out, "ok-then-read-error")
+				continue
+			}
+			sg := "-"
+			if r.Signer() != nil {
+				sg = entityID(r.Signer())
+			}
+			out = append(out, "( ok signer="+sg+" "+showParas(ps)+" )")
+		}
+		return showList(out)
+	}
 	// csread keyring input -> "<oracle> | <implementation>"
 	ops["csread"] = func(a []string) string {
 		kr := keyringOf(arg(a, 0))
